@@ -135,14 +135,38 @@ def run(repo: Repo, chk: Check) -> None:
                    what=f'{name}: the size-independent part of the fee is {const} mutez; branch (32) + a {siglen}-byte signature + fee-field growth + rounding need '
                         f'{need} on top of nothing else: a {kinds} account gets a fee below the node default minimum')
 
-    # replace_map fills limits and counter before the fee (so the measured size already contains them)
+    # the content whose size is priced is the content that is written: when the size of content i is measured, every field other than the
+    # fee itself already has the value the returned group carries (limits, counter, source, a self-registration delegate ...)
     chk.set_clause('C24.3')
-    import ast
-    order = []
-    for n_ in ast.walk(fill.node):
-        if isinstance(n_, ast.Assign) and any(isinstance(t, ast.Name) and t.id == 'replace_map' for t in n_.targets) and isinstance(n_.value, ast.Dict):
-            order = [k.value for k in n_.value.keys if isinstance(k, ast.Constant)]
-    chk.require(order, 'fill: replace_map literal not found')
-    ok = 'fee' in order and all(k in order and order.index(k) < order.index('fee') for k in ('counter', 'gas_limit', 'storage_limit'))
-    chk.ob('R-PATH', fill.qualname, ok, 'counter and limits are filled before the fee is computed', fill.loc, {'order': order},
-           what='the fee is computed on a content whose limits are still placeholders: its size is underestimated')
+    nmeas = 0
+    for name, fi_, mk in (('fill, transfer', fill, lambda: mk_group(1)), ('fill, 2 transfers', fill, lambda: mk_group(2)),
+                          ('fill, delegation with empty delegate (self-registration)', fill, lambda: mk_group(1, kind='delegation', extra={'delegate': ''})),
+                          ('autofill, transfer', autofill, lambda: mk_group(1)), ('autofill, 2 transfers', autofill, lambda: mk_group(2)),
+                          ('autofill, delegation with empty delegate (self-registration)', autofill, lambda: mk_group(1, kind='delegation', extra={'delegate': ''}))):
+        it = Interp(repo, GroupHooks(repo, inline_fees=True), max_depth=8)
+        res = it.run_paths(lambda i, fi_=fi_, mk=mk: call(i, fi_, mk()))
+        if len(res) != 1 or res[0].outcome != 'return':
+            raise AnalysisError(f'C24.3 scenario {name}: {[p.outcome for p in res]}: idiom not modelled')
+        final = {str(c.get('_tag')): c for c in res[0].value.fields['contents']}
+        measured: Dict[str, Dict[str, Any]] = {}
+        for e in res[0].events:
+            if isinstance(e, tuple) and e[0] == 'measured':
+                measured[e[1]] = e[2]  # the last measurement of a content is the one its final fee is computed from
+        diffs = []
+        for idx, snap in measured.items():
+            fin = final.get(idx)
+            if fin is None:
+                continue
+            for k in sorted(set(snap) | set(fin)):
+                if k in ('fee', '_tag', 'metadata'):
+                    continue
+                a, b = snap.get(k, '<absent>'), fin.get(k, '<absent>')
+                if vrepr(a) != vrepr(b):
+                    diffs.append({'content': idx, 'field': k, 'when_measured': vrepr(a)[:60], 'written': vrepr(b)[:60]})
+        nmeas += len(measured)
+        priced_first_only = name.startswith('fill, 2')  # known finding (fill prices the first content only): content 1 is never measured
+        chk.ob('R-PATH', fi_.qualname, bool(measured) and not diffs, f'{name}: every field but the fee has its final value when the size is measured', fi_.loc,
+               {'measured_contents': sorted(measured), 'differences': diffs[:4]},
+               what=f'{name}: the size priced is that of a content whose {[d["field"] for d in diffs][:3]} still differ(s) from what is written '
+                    f'({diffs[:1]}): the operation injected is longer than the one paid for')
+    chk.minimum('size measurements', nmeas, 6)
